@@ -140,7 +140,6 @@ async def _scenario(case, loop):
         clock.advance = advance
 
         ncalls = [0]
-        helpers = {}
 
         def rec_fn(samples, config, props):
             k = ncalls[0]
@@ -356,7 +355,6 @@ def ambiguous(case, log):
         elif e[0] == "hog":
             marks.add(e[2])
     drv = [e[2] for e in log if e[0] == "add"]
-    sup = set()
     for i, e in enumerate(log):
         if e[0] == "remove" and not (i > 0 and log[i - 1][0] in ("raised", "remove") and log[i - 1][-1] == e[2]):
             drv.append(e[2])
@@ -376,11 +374,21 @@ def c_pairs(ps):
 C07_HEADER = """From Verif Require Import model.Resampler.
 (* recorded boundary trace: model event + what the implementation did at it; CSilent w = the ticks
    whose window ends before wall-clock instant w fired while no series was registered (the timer
-   delivers the tick for window end T at T: runtime assumption, see C07 ASSUMPTIONS) *)
+   delivers the tick for window end T at T: runtime assumption, see C07 ASSUMPTIONS).
+   Timestamps in a case are written relative to its creation instant [now] (parsing 16-digit literals
+   is slow); [mk07] adds [now] back, the model runs on absolute microseconds. *)
 Inductive cevent :=
 | CE (e : revent) (exp : list (Z * Z) * bool)
-| CEo (e : revent) (exp : list (Z * Z))      (* the run ended before this tick's gather returned *)
+| CEo (e : revent) (exp : list (Z * Z))      (* whether this tick raised was not observed (run ended, or the
+                                                series set changed while its sinks were awaited) *)
 | CSilent (wall : Z).
+Definition sh_outs (b : Z) (o : list (Z * Z)) := map (fun p => (fst p, b + snd p)) o.
+Definition sh_cev (b : Z) (e : cevent) : cevent :=
+  match e with
+  | CE e o => CE e (sh_outs b (fst o), snd o)
+  | CEo e o => CEo e (sh_outs b o)
+  | CSilent w => CSilent (b + w)
+  end.
 Fixpoint ccheck (period : Z) (st : rstate) (es : list cevent) : bool :=
   match es with
   | [] => true
@@ -390,6 +398,9 @@ Fixpoint ccheck (period : Z) (st : rstate) (es : list cevent) : bool :=
     let n := if wall <=? r_wend st then 0 else (wall - r_wend st + period - 1) / period in
     ccheck period (Nat.iter (Z.to_nat n) (fun s => fst (rstep period s (Tick 0 [] []))) st) es'
   end.
+Definition mk07 (now period : Z) (align ff : option Z) (es : list cevent)
+  : Z * Z * option Z * option Z * list cevent :=
+  (now, period, align, match ff with Some f => Some (now + f) | None => None end, map (sh_cev now) es).
 Definition check (c : Z * Z * option Z * option Z * list cevent) : bool :=
   let '(now, period, align, ff, es) := c in
   let we := window_end now period align in
@@ -410,7 +421,7 @@ def c07_parts(case, log):
     for it in trace:
         if it[0] == "add":
             if not seen_tick and not case["one_shot"] and it[2] > 0 and not any(x.startswith("(CSilent") for x in evs):
-                evs.append(f"(CSilent {cZ(start + it[2])})")
+                evs.append(f"(CSilent {cZ(it[2])})")
                 seen_tick = True   # later ticks are not "tick 0"
             evs.append(f"(CE (Add {cZ(it[1])}) ([], false))")
         elif it[0] == "remove":
@@ -420,26 +431,41 @@ def c07_parts(case, log):
             if not seen_tick:
                 seen_tick = True
                 if not any(h0 <= t["fire"] + 2 for h0, _ in hogs):
-                    first_fire = start + t["fire"]
+                    first_fire = t["fire"]
             T = t["outs"][0][1] if t["outs"] else None
             late = 0 if T is None else t["fire"] - (T - start)
             raised = t["marker"] == "raised"
             tick = f"(Tick {cZ(late)} {clist(sorted(t['fail']))} {clist(sorted(t['dead']))})"
+            outs = [(sid, T_ - start) for sid, T_ in t["outs"]]
             if t.get("incomplete"):
-                evs.append(f"(CEo {tick} {c_pairs(t['outs'])})")
+                evs.append(f"(CEo {tick} {c_pairs(outs)})")
             else:
-                evs.append(f"(CE {tick} ({c_pairs(t['outs'])}, {cbool(raised)}))")
+                evs.append(f"(CE {tick} ({c_pairs(outs)}, {cbool(raised)}))")
             ticks.append(t)
     return first_fire, evs, ticks
 
 
 def c07_term(case, obs):
     ff, evs, _ = c07_parts(case, obs["log"])
-    return f"({cZ(case['start'])}, {cZ(case['period'])}, {copt(case['align'])}, {copt(ff)}, [{'; '.join(evs)}])"
+    return f"(mk07 {cZ(case['start'])} {cZ(case['period'])} {copt(case['align'])} {copt(ff)} [{'; '.join(evs)}])"
 
 
 # ----------------------------------------------------------------------------- C08: Coq rendering
 C08_HEADER = """From Verif Require Import model.Resampler.
+(* Timestamps in a case are written relative to a per-case base (parsing 16-digit literals is slow);
+   [mk08] adds the base back, the model runs on absolute microseconds. *)
+Definition sh_item (b : Z) (x : item) : item := mkI (b + i_ts x) (i_id x) (i_kind x).
+Definition R (ts id kind : Z) : hevent * option hexp := (Recv (mkI ts id kind), None).
+Definition K (T osp olen : Z) (p : list item) (v : bool) (sp : option Z) (ml : Z) : hevent * option hexp :=
+  (HTick T osp olen, Some (p, v, sp, ml)).
+Definition sh_ev (b : Z) (e : hevent * option hexp) : hevent * option hexp :=
+  match e with
+  | (Recv x, _) => (Recv (sh_item b x), None)
+  | (HTick T osp olen, Some (p, v, sp, ml)) => (HTick (b + T) osp olen, Some (map (sh_item b) p, v, sp, ml))
+  | (HTick T osp olen, None) => (HTick (b + T) osp olen, None)
+  end.
+Definition mk08 (b : Z) (c : hconf) (es : list (hevent * option hexp)) : hconf * list (hevent * option hexp) :=
+  (c, map (sh_ev b) es).
 Definition check1 (c : hconf * list (hevent * option hexp)) : bool := hcheck (fst c) (hinit (fst c)) (snd c).
 Definition check (cs : list (hconf * list (hevent * option hexp))) : bool := forallb check1 cs.
 """
@@ -472,6 +498,8 @@ def series_history(case, log, sid):
 
 def c08_term(case, obs):
     parts = []
+    b = case["start"]
+    item = lambda x: f"(mkI {cZ(x[0] - b)} {cZ(x[1])} {cZ(x[2])})"
     for sid in range(len(case["series"])):
         h = series_history(case, obs["log"], sid)
         if not h:
@@ -479,13 +507,14 @@ def c08_term(case, obs):
         evs = []
         for ev in h:
             if ev[0] == "recv":
-                evs.append(f"(Recv {c_item(ev[1])}, None)")
+                x = ev[1]
+                evs.append(f"R {cZ(x[0] - b)} {cZ(x[1])} {cZ(x[2])}")
             else:
                 _, T, passed, val, sp, maxlen, _ = ev
-                evs.append(f"(HTick {cZ(T)} {cZ(sp or 0)} {cZ(maxlen)}, Some ({clist(passed, c_item)}, "
-                           f"{cbool(val is not None)}, {copt(sp)}, {cZ(maxlen)}))")
+                evs.append(f"K {cZ(T - b)} {cZ(sp or 0)} {cZ(maxlen)} {clist(passed, item)} "
+                           f"{cbool(val is not None)} {copt(sp)} {cZ(maxlen)}")
         conf = f"(mkC {cZ(case['period'])} {cZ(case['age'][0])} {cZ(case['age'][1])} {cZ(case['init_len'])})"
-        parts.append(f"({conf}, [{'; '.join(evs)}])")
+        parts.append(f"(mk08 {cZ(b)} {conf} [{'; '.join(evs)}])")
     if not parts:
         return None
     return "[" + "; ".join(parts) + "]"
@@ -835,7 +864,8 @@ async def _actor_scenario(case, loop):
         clock.advance = advance
         registry = ChannelRegistry(name="verif")
         ds_chan = Broadcast[ComponentMetricRequest](name="ds")
-        ds_recv = ds_chan.new_receiver(limit=1000)
+        ds_recv = ds_chan.new_receiver(limit=1000)  # keeps the data-sourcing request channel consumed
+        assert ds_recv is not None
         req_chan = Broadcast[ComponentMetricRequest](name="req")
         cfg = ResamplerConfig(resampling_period=timedelta(microseconds=case["period"]),
                               align_to=None if case["align"] is None else dt(case["align"]))
